@@ -61,11 +61,12 @@ func runC03(c *Ctx) {
 		{"timer stop", `^call:dyn:.*timerCancel\(\)$`},
 		{"cancel", `^call:router\.\(\*dealer\)\.syncCancel\(`},
 		{"feature errors", dTrySendTo + `.*new\(wamp\.Error\)\)$`},
+		{"call failed for the caller", `^call:router\.\(\*dealer\)\.syncFailCall\(%d, `},
 	} {
 		c.Guard(r2, sy, e[0], e[1], 1, own)
 	}
 	c.Has(r2, dlr+"syncError", "ERROR looked up under (callee session, request)", `^val:%d\.invocations\[`+dInvkKey+`\],ok$`, 1)
-	c.R.Floor(r2, 7)
+	c.R.Floor(r2, 8)
 
 	// R3 registration sharing
 	const r3 = "C03.R3 second callee only under identical shared policy, once"
@@ -99,7 +100,7 @@ func runC03(c *Ctx) {
 	c.Guard(r3, sr, "new registration id", `^call:wamp\.\(\*IDGen\)\.Next\(%d\.idGen\)$`, 1, newReg)
 	c.Fields(r3, sr, "REGISTERED literal", "wamp.Registered", nil, map[string]string{
 		"Request": `^%msg\.Request$`, "Registration": `^phi\(call:wamp\.\(\*IDGen\)\.Next\(%d\.idGen\)\|` + regPhi + `\.id\)$`}, 1)
-	c.Has(r3, sr, "callee's registration set updated", `^mapupdate:%d\.calleeRegIDSet\[%callee\]\[phi\(call:wamp\.\(\*IDGen\)\.Next\(%d\.idGen\)\|`+regPhi+`\.id\)\]=nil$`, 1)
+	c.Has(r3, sr, "callee's registration set updated", `^mapupdate:(%d\.calleeRegIDSet\[%callee\]|phi\(%d\.calleeRegIDSet\[%callee\],ok#0\|makemap\(map\[wamp\.ID\]struct\{\}\)\))\[phi\(call:wamp\.\(\*IDGen\)\.Next\(%d\.idGen\)\|`+regPhi+`\.id\)\]=nil$`, 1)
 	c.R.Floor(r3, 22)
 
 	// R4 policy set agreement
